@@ -55,12 +55,24 @@ func (l *Loader) LoadRaw(name string) (*RawConfig, error) {
 
 // Load loads a target configuration with inheritance resolved
 func (l *Loader) Load(name string) (*Config, error) {
+	return l.load(name, nil)
+}
+
+// load resolves name; chain holds the targets currently being resolved, so that
+// a cyclic "inherits" is reported as an error instead of recursing forever.
+func (l *Loader) load(name string, chain []string) (*Config, error) {
+	for _, n := range chain {
+		if n == name {
+			return nil, fmt.Errorf("cyclic inheritance: %s -> %s", strings.Join(chain, " -> "), name)
+		}
+	}
+
 	raw, err := l.LoadRaw(name)
 	if err != nil {
 		return nil, err
 	}
 
-	return l.resolveInheritance(raw)
+	return l.resolveInheritance(raw, append(chain, name))
 }
 
 // LoadAll loads all target configurations in the targets directory
@@ -90,7 +102,7 @@ func (l *Loader) LoadAll() (map[string]*Config, error) {
 }
 
 // resolveInheritance resolves inheritance chain for a configuration
-func (l *Loader) resolveInheritance(raw *RawConfig) (*Config, error) {
+func (l *Loader) resolveInheritance(raw *RawConfig, chain []string) (*Config, error) {
 	if !raw.HasInheritance() {
 		// No inheritance, return as-is
 		return &raw.Config, nil
@@ -101,7 +113,7 @@ func (l *Loader) resolveInheritance(raw *RawConfig) (*Config, error) {
 
 	// Apply inheritance in order
 	for _, parentName := range raw.GetInherits() {
-		parent, err := l.Load(parentName)
+		parent, err := l.load(parentName, chain)
 		if err != nil {
 			return nil, fmt.Errorf("failed to load parent config %s: %w", parentName, err)
 		}
